@@ -1,48 +1,743 @@
+// C12 — whatever the compiler accepts, it turns into Go code that compiles.
+//
+// Bounded-exhaustive enumeration of schemas x generator option sets. Every (schema, options) pair
+// that ReadFile+Generate accept is judged in-process by go/parser + go/types against bebop and
+// iohelp type-checked from the working tree (verif/tc). A stratified subset of the verdicts is
+// re-judged by the real toolchain (go build / go vet) and must agree.
 package main
 
 import (
+	"bytes"
+	"crypto/sha256"
+	"encoding/json"
+	"flag"
 	"fmt"
+	"go/scanner"
+	"go/types"
+	"os"
+	"path/filepath"
+	"regexp"
+	"sort"
+	"strings"
+	"sync"
 	"sync/atomic"
-	"time"
 
+	"github.com/200sc/bebop"
+	"verif/driver"
 	"verif/fe"
-	"verif/schema"
 	"verif/tc"
 	"verif/vlib"
 )
 
-func main() {
-	chk, err := tc.New(vlib.RepoDir())
-	if err != nil {
-		vlib.Fatal("%v", err)
+const allMasks = 32
+
+var quickMasks = []int{0, 31, 9, 18}
+
+type pkgSrc struct {
+	ImportPath string // "" = the entry file's package
+	File       string // schema file it was generated from
+	Src        []byte
+}
+
+type outcome struct {
+	Done     bool
+	Rejected bool
+	Phase    string
+	RejMsg   string
+	OK       bool
+	Cat      string   // category of the first error in source order
+	Where    string   // enclosing generated function / file of that error (messages only)
+	Errs     []string // first errors, "line:col: text"
+	NErrs    int
+}
+
+func (o *outcome) key() string {
+	switch {
+	case o.Rejected:
+		return "rejected"
+	case o.OK:
+		return "ok"
 	}
-	for _, th := range []bool{false, true} {
-		sup := schema.NewSupport()
-		cases := sup.Cases(th)
-		fmt.Println("cases", len(cases))
-		t0 := time.Now()
-		var fail, rej int64
-		cats := vlib.NewCounter()
-		vlib.ParallelFor(len(cases), func(i int) {
-			c := cases[i]
-			text := sup.BatchSchema([]*schema.Case{c}).Render()
-			for _, m := range []int{0, 31} {
-				src, _, err := fe.Gen(text, m, "p")
-				if err != nil {
-					atomic.AddInt64(&rej, 1)
-					continue
-				}
-				res := chk.Check("gen.go", src)
-				if !res.OK() {
-					atomic.AddInt64(&fail, 1)
-					if res.ParseErr != nil {
-						cats.Add("syntax")
-					} else {
-						cats.Add(tc.Category(res.Errs[0]))
-					}
+	return "fail:" + o.Cat
+}
+
+type env struct {
+	chk     *tc.Checker
+	work    string
+	impMu   sync.Mutex
+	gens    int64
+	checks  int64
+	results [][]outcome
+}
+
+// genPath runs ReadFile+Generate on a schema file on disk (needed for imports: Generate resolves them
+// relative to File.FileName).
+func genPath(path string, mask int, pkg string, mode int) (out []byte, phase string, err error) {
+	defer func() {
+		if r := recover(); r != nil {
+			phase, err = "panic", fmt.Errorf("panic: %v", r)
+		}
+	}()
+	fh, err := os.Open(path)
+	if err != nil {
+		vlib.Fatal("cannot open materialised schema %s: %v", path, err)
+	}
+	defer fh.Close()
+	f, _, err := bebop.ReadFile(fh)
+	if err != nil {
+		return nil, "readfile", err
+	}
+	var buf bytes.Buffer
+	st := driver.Settings(mask)
+	st.PackageName = pkg
+	st.ImportGenerationMode = bebop.ImportGenerationMode(mode)
+	if err := f.Generate(&buf, st); err != nil {
+		return nil, "generate", err
+	}
+	return buf.Bytes(), "", nil
+}
+
+func (e *env) materialise(it *item) {
+	if it.Files == nil || it.dir != "" {
+		return
+	}
+	it.dir = filepath.Join(e.work, fmt.Sprintf("i%d", it.idx))
+	write := func(name, text string) {
+		p := filepath.Join(it.dir, filepath.FromSlash(name))
+		if err := os.MkdirAll(filepath.Dir(p), 0o755); err != nil {
+			vlib.Fatal("scratch: %v", err)
+		}
+		if err := os.WriteFile(p, []byte(text), 0o644); err != nil {
+			vlib.Fatal("scratch: %v", err)
+		}
+	}
+	write("main.bop", it.Text)
+	for n, t := range it.Files {
+		write(n, t)
+	}
+}
+
+var funcRe = regexp.MustCompile(`^func (?:\([a-z]+ \*?[^)]*\) )?([A-Za-z0-9_]+)`)
+
+// whereIs names the generated function that contains line (messages only; never part of a signature).
+func whereIs(src []byte, line int) string {
+	lines := bytes.Split(src, []byte("\n"))
+	if line > len(lines) {
+		line = len(lines)
+	}
+	for i := line - 1; i >= 0; i-- {
+		l := lines[i]
+		if bytes.HasPrefix(l, []byte("func ")) {
+			if m := funcRe.FindSubmatch(l); m != nil {
+				// strip the record name from MakeX / NewX etc.: only the method names are stable API
+				return "in func " + string(m[1])
+			}
+			return "in a func"
+		}
+		if i < line-1 && len(l) > 0 && l[0] == '}' {
+			break
+		}
+	}
+	return "at package level"
+}
+
+// verdict turns a type-check result into an outcome (first error = lowest source position).
+func verdict(res *tc.Result, src []byte, o *outcome) {
+	if res.OK() {
+		o.OK = true
+		return
+	}
+	if res.ParseErr != nil {
+		o.Cat = "syntax"
+		line := 0
+		if el, ok := res.ParseErr.(scanner.ErrorList); ok && len(el) > 0 {
+			o.NErrs = len(el)
+			for i, e := range el {
+				if i < 3 {
+					o.Errs = append(o.Errs, e.Error())
 				}
 			}
-		})
-		fmt.Println(time.Since(t0), fail, rej, cats.Top(10))
+			line = el[0].Pos.Line
+		} else {
+			o.NErrs = 1
+			o.Errs = []string{res.ParseErr.Error()}
+		}
+		o.Where = whereIs(src, line)
+		return
 	}
+	errs := append([]types.Error(nil), res.Errs...)
+	sort.SliceStable(errs, func(i, j int) bool {
+		return errs[i].Fset.Position(errs[i].Pos).Offset < errs[j].Fset.Position(errs[j].Pos).Offset
+	})
+	o.NErrs = len(errs)
+	o.Cat = tc.Category(errs[0])
+	o.Where = whereIs(src, errs[0].Fset.Position(errs[0].Pos).Line)
+	for i, e := range errs {
+		if i < 3 {
+			o.Errs = append(o.Errs, tc.ErrLine(e))
+		}
+	}
+}
+
+func depMask(it *item, mask int) int {
+	if it.DepOpts == "same" {
+		return mask
+	}
+	return 0
+}
+
+// judge decides one (schema, option set) pair. With keep, the generated sources are returned as well.
+func (e *env) judge(it *item, mask int, keep bool) (o outcome, srcs []pkgSrc) {
+	o.Done = true
+	if it.Files == nil {
+		atomic.AddInt64(&e.gens, 1)
+		src, phase, err := fe.Gen(it.Text, mask, it.Pkg)
+		if err != nil {
+			o.Rejected, o.Phase, o.RejMsg = true, phase, err.Error()
+			return
+		}
+		atomic.AddInt64(&e.checks, 1)
+		verdict(e.chk.Check("gen.go", src), src, &o)
+		if keep {
+			srcs = []pkgSrc{{File: "main.bop", Src: src}}
+		}
+		return
+	}
+	mainPath := filepath.Join(it.dir, "main.bop")
+	if it.Mode == 0 && len(it.Deps) > 0 {
+		// separate mode: the imported files' packages are generated and type-checked first and registered under
+		// their go_package path. Registrations are global in the checker, hence serialised.
+		e.impMu.Lock()
+		defer e.impMu.Unlock()
+		// the entry file decides acceptance: nothing is asserted about a rejected schema
+		atomic.AddInt64(&e.gens, 1)
+		src, phase, err := genPath(mainPath, mask, it.Pkg, it.Mode)
+		if err != nil {
+			o.Rejected, o.Phase, o.RejMsg = true, phase, err.Error()
+			return
+		}
+		for _, d := range it.Deps {
+			atomic.AddInt64(&e.gens, 1)
+			dsrc, _, derr := genPath(filepath.Join(it.dir, filepath.FromSlash(d.File)), depMask(it, mask), "", 0)
+			if derr != nil {
+				// the imported file is not generable on its own; the importer's verdict stands on what exists
+				continue
+			}
+			atomic.AddInt64(&e.checks, 1)
+			res := e.chk.Check("gen.go", dsrc)
+			if keep {
+				srcs = append(srcs, pkgSrc{ImportPath: d.Path, File: d.File, Src: dsrc})
+			}
+			if !res.OK() {
+				verdict(res, dsrc, &o)
+				o.Where = "in the package generated for imported file " + d.File + ", " + o.Where
+				return
+			}
+			e.chk.AddPackage(d.Path, res.Pkg)
+		}
+		atomic.AddInt64(&e.checks, 1)
+		verdict(e.chk.Check("gen.go", src), src, &o)
+		if keep {
+			srcs = append(srcs, pkgSrc{File: "main.bop", Src: src})
+		}
+		return
+	}
+	atomic.AddInt64(&e.gens, 1)
+	src, phase, err := genPath(mainPath, mask, it.Pkg, it.Mode)
+	if err != nil {
+		o.Rejected, o.Phase, o.RejMsg = true, phase, err.Error()
+		return
+	}
+	atomic.AddInt64(&e.checks, 1)
+	verdict(e.chk.Check("gen.go", src), src, &o)
+	if keep {
+		srcs = []pkgSrc{{File: "main.bop", Src: src}}
+	}
+	return
+}
+
+var bitNames = []string{"ptr", "private", "tags", "unsafe", "shared"}
+
+// optLabel names the minimal option subset a failure correlates with: "*" if it occurs under every judged
+// accepted option set, otherwise the bits that are on in all failing sets and the bits (with "!") that are off
+// in all failing sets, provided these constraints describe the failing sets exactly.
+func optLabel(failing, universe []int) string {
+	if len(failing) == len(universe) {
+		return "*"
+	}
+	on, off := allMasks-1, allMasks-1
+	for _, m := range failing {
+		on &= m
+		off &= ^m
+	}
+	fs := map[int]bool{}
+	for _, m := range failing {
+		fs[m] = true
+	}
+	exact := true
+	for _, m := range universe {
+		pred := m&on == on && m&off == 0
+		if pred != fs[m] {
+			exact = false
+		}
+	}
+	var p []string
+	for i, n := range bitNames {
+		if on&(1<<i) != 0 {
+			p = append(p, n)
+		}
+	}
+	for i, n := range bitNames {
+		if off&(1<<i) != 0 {
+			p = append(p, "!"+n)
+		}
+	}
+	if !exact || len(p) == 0 {
+		// no conjunction of single bits describes it
+		var ms []string
+		for _, m := range failing {
+			ms = append(ms, fmt.Sprint(m))
+		}
+		return "mixed(" + strings.Join(ms, ",") + ")"
+	}
+	return strings.Join(p, ",")
+}
+
+type hit struct {
+	it      *item
+	masks   []int
+	first   outcome
+	sig     string
+	accepts int
+}
+
+func modeName(m int) string {
+	if m == 1 {
+		return "combined"
+	}
+	return "separate"
+}
+
+func caseMap(h *hit) map[string]any {
+	it := h.it
+	c := map[string]any{
+		"part": it.Part, "class": it.Class, "position": it.Pos, "hazard": it.Note,
+		"schema": it.Text, "package_name_setting": it.Pkg,
+		"opt": h.masks[0], "opt_name": driver.OptName(h.masks[0]), "failing_opts": h.masks,
+		"first_errors": h.first.Errs, "error_category": h.first.Cat, "where": h.first.Where,
+	}
+	if it.Files != nil {
+		c["files"] = it.Files
+		c["import_mode"] = modeName(it.Mode)
+		c["importee_options"] = it.DepOpts
+		c["imported_packages"] = it.Deps
+	}
+	return c
+}
+
+func itemFromCase(c map[string]any) (*item, []int) {
+	it := &item{}
+	str := func(k string) string { s, _ := c[k].(string); return s }
+	it.Part, it.Class, it.Pos, it.Note, it.Text, it.Pkg = str("part"), str("class"), str("position"), str("hazard"), str("schema"), str("package_name_setting")
+	if fs, ok := c["files"].(map[string]any); ok {
+		it.Files = map[string]string{}
+		for k, v := range fs {
+			it.Files[k], _ = v.(string)
+		}
+		if str("import_mode") == "combined" {
+			it.Mode = 1
+		}
+		it.DepOpts = str("importee_options")
+		if ds, ok := c["imported_packages"].([]any); ok {
+			for _, d := range ds {
+				if m, ok := d.(map[string]any); ok {
+					f, _ := m["file"].(string)
+					p, _ := m["go_package"].(string)
+					it.Deps = append(it.Deps, depFile{f, p})
+				}
+			}
+		}
+	}
+	var masks []int
+	if l, ok := c["failing_opts"].([]any); ok {
+		for _, v := range l {
+			if f, ok := v.(float64); ok {
+				masks = append(masks, int(f))
+			}
+		}
+	}
+	if len(masks) == 0 {
+		if f, ok := c["opt"].(float64); ok {
+			masks = []int{int(f)}
+		}
+	}
+	return it, masks
+}
+
+func newEnv() *env {
+	chk, err := tc.New(vlib.RepoDir())
+	if err != nil {
+		vlib.Fatal("cannot type-check bebop/iohelp from %s: %v", vlib.RepoDir(), err)
+	}
+	work := filepath.Join(vlib.VerifDir(), ".cache", "work", fmt.Sprintf("c12-%d", os.Getpid()))
+	if err := os.MkdirAll(work, 0o755); err != nil {
+		vlib.Fatal("scratch: %v", err)
+	}
+	return &env{chk: chk, work: work}
+}
+
+func doReplay(path string) int {
+	b, err := os.ReadFile(path)
+	if err != nil {
+		vlib.Fatal("replay: %v", err)
+	}
+	var v struct {
+		Signature string         `json:"signature"`
+		Case      map[string]any `json:"case"`
+	}
+	if json.Unmarshal(b, &v) != nil || v.Case["schema"] == nil {
+		vlib.Fatal("replay file %s has no C12 case", path)
+	}
+	e := newEnv()
+	defer os.RemoveAll(e.work)
+	it, masks := itemFromCase(v.Case)
+	e.materialise(it)
+	fmt.Printf("replaying %s\n  %s\n", v.Signature, it.Note)
+	fmt.Printf("--- schema (PackageName=%q)\n%s", it.Pkg, it.Text)
+	for _, n := range sortedKeys(it.Files) {
+		fmt.Printf("--- file %s\n%s", n, it.Files[n])
+	}
+	fmt.Println("---")
+	bad := 0
+	for _, m := range masks {
+		o, _ := e.judge(it, m, false)
+		switch {
+		case o.Rejected:
+			fmt.Printf("options %-28s REJECTED by %s: %s\n", driver.OptName(m), o.Phase, o.RejMsg)
+		case o.OK:
+			fmt.Printf("options %-28s generated code type-checks\n", driver.OptName(m))
+		default:
+			bad++
+			fmt.Printf("options %-28s generated code does NOT compile: %d error(s), category %s, %s\n", driver.OptName(m), o.NErrs, o.Cat, o.Where)
+			for _, l := range o.Errs {
+				fmt.Printf("    %s\n", l)
+			}
+		}
+	}
+	if bad > 0 {
+		fmt.Printf("VIOLATION property=C12 still reproduces under %d of %d option sets\n", bad, len(masks))
+		return 1
+	}
+	fmt.Println("no longer reproduces")
+	return 0
+}
+
+func main() {
+	prop := flag.String("property", "C12", "")
+	replay := flag.String("replay", "", "")
+	groups := flag.Bool("groups", false, "print every violation signature with its witnesses (for NOTES.md)")
+	nocross := flag.Bool("nocross", false, "skip the go build cross-check (debugging only)")
+	flag.Parse()
+	if *prop != "C12" {
+		vlib.Fatal("c12: unknown property %q", *prop)
+	}
+	if *replay != "" {
+		os.Exit(doReplay(*replay))
+	}
+	run := vlib.NewRun("C12", "model_checking")
+	e := newEnv()
+	cleanup := func() { os.RemoveAll(e.work) }
+	items := allItems(run.Thorough())
+	for _, it := range items {
+		e.materialise(it)
+	}
+	e.results = make([][]outcome, len(items))
+	for i := range e.results {
+		e.results[i] = make([]outcome, allMasks)
+	}
+
+	// pass 1: every item under its option sets
+	type job struct{ it, mask int }
+	var jobs []job
+	for _, it := range items {
+		if run.Thorough() || it.Wide {
+			for m := 0; m < allMasks; m++ {
+				jobs = append(jobs, job{it.idx, m})
+			}
+		} else {
+			for _, m := range quickMasks {
+				jobs = append(jobs, job{it.idx, m})
+			}
+		}
+	}
+	runJobs := func(js []job) {
+		vlib.ParallelFor(len(js), func(i int) {
+			j := js[i]
+			o, _ := e.judge(items[j.it], j.mask, false)
+			e.results[j.it][j.mask] = o
+		})
+	}
+	runJobs(jobs)
+	// pass 2 (quick): an item whose verdict differs between the four option sets is judged under all 32, so that the
+	// option subset in its signature is exact and equal to what the thorough tier reports
+	var refine []job
+	refined := 0
+	for _, it := range items {
+		keys := map[string]bool{}
+		n := 0
+		for m := 0; m < allMasks; m++ {
+			if e.results[it.idx][m].Done {
+				keys[e.results[it.idx][m].key()] = true
+				n++
+			}
+		}
+		if n < allMasks && len(keys) > 1 {
+			refined++
+			for m := 0; m < allMasks; m++ {
+				if !e.results[it.idx][m].Done {
+					refine = append(refine, job{it.idx, m})
+				}
+			}
+		}
+	}
+	runJobs(refine)
+
+	// aggregate
+	type partStat struct {
+		Schemas, Accepted, Rejected, Mixed int
+		Pairs, PairsAccepted, PairsFailing int
+		SchemasFailing                     int
+		Classes                            map[string]bool
+		RejectedClasses                    map[string]int
+	}
+	stats := map[string]*partStat{}
+	distinctAccepted := map[[32]byte]bool{}
+	rejectReasons := vlib.NewCounter()
+	var hits []*hit
+	states := 0
+	for _, it := range items {
+		ps := stats[it.Part]
+		if ps == nil {
+			ps = &partStat{Classes: map[string]bool{}, RejectedClasses: map[string]int{}}
+			stats[it.Part] = ps
+		}
+		ps.Schemas++
+		ps.Classes[it.Class+"|"+it.Pos] = true
+		var universe []int
+		byCat := map[string][]int{}
+		firstOf := map[string]outcome{}
+		rej := 0
+		judged := 0
+		for m := 0; m < allMasks; m++ {
+			o := e.results[it.idx][m]
+			if !o.Done {
+				continue
+			}
+			judged++
+			states++
+			ps.Pairs++
+			if o.Rejected {
+				rej++
+				if rej == 1 {
+					rejectReasons.Add(it.Part + "|" + o.Phase)
+				}
+				continue
+			}
+			ps.PairsAccepted++
+			universe = append(universe, m)
+			if !o.OK {
+				ps.PairsFailing++
+				if _, ok := firstOf[o.Cat]; !ok {
+					firstOf[o.Cat] = o
+				}
+				byCat[o.Cat] = append(byCat[o.Cat], m)
+			}
+		}
+		switch {
+		case rej == judged:
+			ps.Rejected++
+			ps.RejectedClasses[it.Class]++
+		case rej == 0:
+			ps.Accepted++
+		default:
+			ps.Mixed++
+		}
+		if len(universe) > 0 {
+			h := sha256.New()
+			h.Write([]byte(it.Text))
+			for _, n := range sortedKeys(it.Files) {
+				h.Write([]byte{0})
+				h.Write([]byte(n))
+				h.Write([]byte{0})
+				h.Write([]byte(it.Files[n]))
+			}
+			fmt.Fprintf(h, "\x00%s\x00%d\x00%s", it.Pkg, it.Mode, it.DepOpts)
+			var k [32]byte
+			copy(k[:], h.Sum(nil))
+			distinctAccepted[k] = true
+		}
+		if len(byCat) > 0 {
+			ps.SchemasFailing++
+		}
+		if it.Control {
+			if len(universe) != judged {
+				cleanup()
+				vlib.Fatal("control schema (%s %s %s: %s) was rejected by the compiler: the generator of this alphabet part is wrong:\n%s\n%s", it.Part, it.Class, it.Pos, it.Note, it.Text, e.results[it.idx][0].RejMsg)
+			}
+		}
+		for _, cat := range sortedKeys(byCat) {
+			ms := byCat[cat]
+			sig := it.sigPrefix() + "|opts=" + optLabel(ms, universe) + "|" + cat
+			hits = append(hits, &hit{it: it, masks: ms, first: firstOf[cat], sig: sig, accepts: len(universe)})
+		}
+	}
+
+	// group by signature; the witness of a signature is its smallest schema
+	bySig := map[string][]*hit{}
+	for _, h := range hits {
+		bySig[h.sig] = append(bySig[h.sig], h)
+	}
+	sigs := sortedKeys(bySig)
+	for _, s := range sigs {
+		hs := bySig[s]
+		sort.SliceStable(hs, func(i, j int) bool {
+			if len(hs[i].it.Text) != len(hs[j].it.Text) {
+				return len(hs[i].it.Text) < len(hs[j].it.Text)
+			}
+			return hs[i].it.idx < hs[j].it.idx
+		})
+	}
+
+	// cross-validation against the real toolchain
+	var xr *crossResult
+	if !*nocross {
+		var fails []sample
+		for _, s := range sigs {
+			h := bySig[s][0]
+			fails = append(fails, sample{it: h.it, mask: h.masks[0], expectOK: false, sig: s})
+		}
+		xr = e.crossCheck(items, fails, run.Thorough())
+		if len(xr.Disagreements) > 0 {
+			fmt.Fprintf(os.Stderr, "scratch modules kept in %s\n", xr.Root)
+			for _, d := range xr.Disagreements {
+				fmt.Fprintln(os.Stderr, d)
+			}
+			vlib.Fatal("the in-process type checker and the real toolchain disagree on %d of %d (schema, options) pairs: the checker model is not validated; no verdict", len(xr.Disagreements), xr.Checked)
+		}
+		os.RemoveAll(xr.Root)
+	}
+	cleanup()
+
+	for _, s := range sigs {
+		hs := bySig[s]
+		w := hs[0]
+		var notes []string
+		seen := map[string]bool{}
+		for _, h := range hs {
+			if !seen[h.it.Note] {
+				seen[h.it.Note] = true
+				notes = append(notes, h.it.Note)
+			}
+		}
+		optDesc := "under every option set"
+		if len(w.masks) != w.accepts {
+			var on []string
+			for _, m := range w.masks {
+				on = append(on, driver.OptName(m))
+			}
+			optDesc = fmt.Sprintf("under %d of %d option sets (%s)", len(w.masks), w.accepts, vlib.Short(strings.Join(on, " "), 160))
+		}
+		msg := fmt.Sprintf("%d accepted schema(s) of this class generate Go that does not compile, %s. Witness (%s; PackageName=%q; options %s): first of %d compiler error(s), %s: %s. Cases: %s",
+			len(hs), optDesc, w.it.Note, w.it.Pkg, driver.OptName(w.masks[0]), w.first.NErrs, w.first.Where, strings.Join(w.first.Errs, " ; "), vlib.Short(strings.Join(notes, "; "), 400))
+		if *groups {
+			fmt.Printf("SIG %s (x%d)\n    %s\n", s, len(hs), msg)
+			fmt.Printf("    schema: %q\n", vlib.Short(w.it.Text, 600))
+		}
+		for i, h := range hs {
+			if i == 0 {
+				run.Report(s, msg, caseMap(h))
+			} else {
+				run.Report(s, "", caseMap(h))
+			}
+		}
+	}
+
+	// coverage
+	cov := run.Coverage
+	cov["states"] = states
+	cov["transitions"] = e.gens + e.checks
+	cov["generate_calls"] = e.gens
+	cov["type_checks"] = e.checks
+	cov["evaluations"] = states
+	cov["distinct_nontrivial"] = len(distinctAccepted)
+	cov["schemas_enumerated"] = len(items)
+	cov["failing_pairs"] = func() int {
+		n := 0
+		for _, h := range hits {
+			n += len(h.masks)
+		}
+		return n
+	}()
+	cov["failing_schemas"] = func() int {
+		n := 0
+		for _, ps := range stats {
+			n += ps.SchemasFailing
+		}
+		return n
+	}()
+	cov["distinct_failure_signatures_before_known_findings"] = len(sigs)
+	parts := map[string]any{}
+	for _, p := range partOrder {
+		ps := stats[p]
+		if ps == nil {
+			continue
+		}
+		parts[p] = map[string]any{
+			"schemas": ps.Schemas, "schemas_accepted": ps.Accepted, "schemas_rejected": ps.Rejected, "schemas_accepted_under_some_options_only": ps.Mixed,
+			"schemas_failing_to_compile": ps.SchemasFailing, "class_positions": len(ps.Classes),
+			"pairs_judged": ps.Pairs, "pairs_accepted": ps.PairsAccepted, "pairs_failing": ps.PairsFailing,
+			"rejected_by_class": ps.RejectedClasses,
+		}
+		// vacuity guard: a part whose hazards the compiler mostly refuses tests nothing
+		if ps.Accepted*2 < ps.Schemas {
+			run.Assume = append(run.Assume, fmt.Sprintf("WARNING: alphabet part %s: only %d of %d schemas accepted", p, ps.Accepted, ps.Schemas))
+		}
+	}
+	cov["alphabet_parts"] = parts
+	cov["rejections_by_phase"] = rejectReasons.Top(40)
+	cov["quick_tier_items_refined_to_32_option_sets"] = refined
+	if xr != nil {
+		cov["traces_validated_against_impl"] = xr.Checked
+		cov["go_build_crosscheck"] = map[string]any{
+			"checked": xr.Checked, "agreed": xr.Agreed, "passing_pairs_checked": xr.PassChecked, "passing_pairs_total": xr.PassTotal,
+			"failing_signatures_checked": xr.FailChecked, "modules": xr.Modules, "go_build_s": xr.BuildSeconds, "go_vet_s": xr.VetSeconds,
+			"go_vet_packages_with_findings": xr.VetPackages, "go_vet_finding_kinds": xr.VetKinds,
+		}
+	} else {
+		cov["traces_validated_against_impl"] = 0
+	}
+	if run.Thorough() {
+		cov["rule"] = "state = one (schema, option set) pair, option set = the 5 boolean GenerateSettings (32), plus PackageName source and import mode where they apply; every schema of the alphabet (part 1: every shape x context case of schema.Support.Cases(thorough) alone with the support definitions; part 2: identifier / string / const / package-name / enum / opcode / union / sequence / import generators of cmd/c12/alphabet.go) is judged under all 32 option sets; transitions = Generate calls + type-checks; distinct_nontrivial = distinct accepted (schema text, PackageName setting, import mode) inputs"
+	} else {
+		cov["rule"] = "state = one (schema, option set) pair; part 1: every case of schema.Support.Cases(quick) under option sets {none, all, ptr+unsafe, private+shared}, a reduced subset (depth<=1 shapes over 12 leaves, specials) under all 32, and every case whose verdict differs among the four under all 32; part 2 (alphabet.go generators): every schema under all 32; transitions = Generate calls + type-checks; distinct_nontrivial = distinct accepted (schema text, PackageName setting, import mode) inputs"
+	}
+	cov["explanation"] = "each pair runs the real ReadFile+Generate of the working tree; the verdict is go/parser + go/types over the emitted file against bebop and iohelp type-checked from the working tree (unused variables and imports count as errors); rejected schemas assert nothing and are counted"
+	run.Assume = append(run.Assume,
+		"compiles = parses and type-checks as one package (go/types); validated against `go build` on the stratified subset reported under go_build_crosscheck",
+		"separate import mode: the imported file is generated with the importer's option set (class importee-same-options) or with all options off (importee-default-options)",
+		"a file whose package clause is `package main` is accepted although `go build` wants a func main",
+	)
+	// samples
+	nS := 0
+	for _, it := range items {
+		if nS >= 10 {
+			break
+		}
+		if it.idx%97 == 3 || (it.Part == "import" && nS < 9 && it.idx%41 == 0) {
+			o := e.results[it.idx][0]
+			run.Sample(map[string]any{"part": it.Part, "class": it.Class, "position": it.Pos, "hazard": it.Note, "schema": vlib.Short(it.Text, 300), "verdict_opts_none": o.key(), "errors": o.Errs, "rejected_because": vlib.Short(o.RejMsg, 200)})
+			nS++
+		}
+	}
+	run.Finish()
 }
